@@ -210,7 +210,7 @@ func Edits(v V, alpha []V, keys []string) []V {
 				})
 			}
 		case map[string]interface{}:
-			for k := range c {
+			for _, k := range ref.SortedKeys(c) {
 				n := map[string]interface{}{}
 				for kk, vv := range c {
 					if kk != k {
